@@ -806,7 +806,12 @@ func hbtSubscribe(w *hbtWorld, ski, dev string, wr *hbtWriter) {
 
 // hbtSubscribeTo: one peer whose device-diagnosis client feature subscribes to each of the given server features.
 func hbtSubscribeTo(l *spine.DeviceLocal, ski, dev string, wr *hbtWriter, servers ...*model.FeatureAddressType) {
-	l.SetupRemoteDevice(ski, wr)
+	if wr == nil {
+		// a peer whose connection cannot be written to: every send to it fails
+		l.SetupRemoteDevice(ski, nil)
+	} else {
+		l.SetupRemoteDevice(ski, wr)
+	}
 	rdev := l.RemoteDeviceForSki(ski)
 	inject := func(d model.DatagramType) {
 		b, _ := json.Marshal(model.Datagram{Datagram: d})
@@ -853,6 +858,9 @@ func hbtMulti(periods []time.Duration, dur time.Duration) (fails [][2]string, de
 	}
 	const nSub = 2
 	var wr [nSub]*hbtWriter
+	// round 7: the FIRST subscriber of every feature is a peer whose connection cannot be written to - a refresh must
+	// still reach everybody subscribed after it
+	hbtSubscribeTo(l, fmt.Sprintf("hbt%d-dead", id), "devdead", nil, servers...)
 	for p := 0; p < nSub; p++ {
 		wr[p] = newHbtWriter()
 		if p == 0 {
@@ -861,8 +869,8 @@ func hbtMulti(periods []time.Duration, dur time.Duration) (fails [][2]string, de
 		hbtSubscribeTo(l, fmt.Sprintf("hbt%d-m%d", id, p), fmt.Sprintf("dev%d", p), wr[p], servers...)
 	}
 	for i, f := range feats {
-		if n := len(l.SubscriptionManager().SubscriptionsOnFeature(*f.Address())); n != nSub {
-			fail("C16/world", fmt.Sprintf("%d subscriptions on the device-diagnosis feature of entity %d, expected %d", n, i+1, nSub))
+		if n := len(l.SubscriptionManager().SubscriptionsOnFeature(*f.Address())); n != nSub+1 {
+			fail("C16/world", fmt.Sprintf("%d subscriptions on the device-diagnosis feature of entity %d, expected %d", n, i+1, nSub+1))
 			return
 		}
 	}
